@@ -88,12 +88,11 @@ class Gen:
         if k == 18:
             return "!if(%s, %s, %s)" % (self.value(d - 1), self.value(d - 1), self.value(d - 1))
         if k == 19:
-            v = self.pick(VARS)
-            return "!foreach(%s, %s, %s)" % (v, self.value(d - 1), self.value(d - 1))
+            return "!foreach(%s, %s, %s)" % (self.binder(), self.value(d - 1), self.value(d - 1))
         if k == 20:
-            return "!foldl(%s, %s, %s, %s, %s)" % (self.value(d - 1), self.value(d - 1), self.pick(VARS), self.pick(VARS), self.value(d - 1))
+            return "!foldl(%s, %s, %s, %s, %s)" % (self.value(d - 1), self.value(d - 1), self.binder(), self.binder(), self.value(d - 1))
         if k == 21:
-            return "!filter(%s, %s, %s)" % (self.pick(VARS), self.value(d - 1), self.value(d - 1))
+            return "!filter(%s, %s, %s)" % (self.binder(), self.value(d - 1), self.value(d - 1))
         if k == 22:
             return "!%s<%s>(%s)" % (self.pick(["cast", "isa", "exists"]), self.typ(), self.value(d - 1))
         if k == 23:
@@ -103,12 +102,25 @@ class Gen:
                                 ", ".join(self.value(d - 1) for _ in range(self.r.randrange(1, 4))))
         return "!%s(%s)" % (self.pick(BANG2 + BANG1), ", ".join(self.value(d - 1) for _ in range(self.r.randrange(0, 4))))
 
+    def binder(self):
+        """the bound variable of !foreach / !foldl / !filter: usually an identifier (sometimes followed by trivia), sometimes not one"""
+        k = self.r.randrange(12)
+        if k < 8:
+            return self.pick(VARS)
+        if k == 8:
+            return self.pick(VARS) + self.pick([" ", " /* c */", "\n"])
+        return self.pick(["1", '"s"', "a.b", "!add(1, 2)", "[1]", "?", "A<1>", "x#y"])
+
     def args(self, d):
-        n = self.r.randrange(0, 4)
+        n = self.r.randrange(0, 5)
         out = []
         for _ in range(n):
-            if self.chance(0.25):
+            k = self.r.randrange(8)
+            if k < 2:
                 out.append("%s = %s" % (self.pick(ARGS + FIELDS), self.value(d)))
+            elif k == 2:
+                # a named argument whose name is not an identifier
+                out.append("%s = %s" % (self.pick(["1", '"a"', '"zz"', "[1]", "A<1>", "a.b", "?"]), self.value(d)))
             else:
                 out.append(self.value(d))
         return ", ".join(out)
@@ -407,3 +419,17 @@ def char_prefixes(text, rng, limit):
     if n < 2:
         return []
     return [text[:rng.randrange(1, n)] for _ in range(limit)]
+
+
+TRIVIA = [" ", "  ", "\n", "\t", " /* c */ ", " // c\n", "/**/", "\r\n"]
+
+
+def inject_trivia(text, rng, n=6):
+    """whitespace / comments inserted at random token boundaries (identifiers followed by trivia before `,` `>` `)` `;` ...)"""
+    toks = tokens(text)
+    for _ in range(n):
+        if not toks:
+            break
+        i = rng.randrange(len(toks) + 1)
+        toks.insert(i, TRIVIA[rng.randrange(len(TRIVIA))])
+    return "".join(toks)
